@@ -57,7 +57,8 @@ def run(cx):
             for t in n.targets:
                 if is_self_attr(t):
                     locks[t.attr] = n
-    cx.need(locks, "R16c", "ak/conn_http.py::_HttpConnImpl.__init__", "no attribute initialised from threading.Lock()")
+    cx.ob("R16c", init, bool(locks), "the implementation object owns a threading.Lock / RLock" if locks else
+          "no attribute of the implementation object is initialised from threading.Lock() / RLock(): the counter cannot be protected", stmt="lock attribute")
     counters = set()
     for m, q, f in repo.functions({REL}):
         for n in walk_local(f):
